@@ -1,45 +1,42 @@
 """
-C14: the literal thresholds of SDM.collect_needed_symmetry / SDM.packer, read off shelxfile/shelx/sdm.py with `ast`
-and written to lean/ShelxModel/Extracted/C14Consts.lean (Rat for the theorems, Float for the driver).
+C14: the thresholds of SDM.collect_needed_symmetry / SDM.packer, written to lean/ShelxModel/Extracted/C14Consts.lean
+(Rat for the theorems, Float for the driver).
 
-  packer:   `length < 0.2`                       -> dupLim
-  collect:  `sdm_item.dist + 0.2`                -> window
-            `dddd = 1.8`                         -> hh
-            `dk > 0.001`                         -> eps
-            `X.molindex < 1`                     -> molLow   (must be 1)
-            `X.molindex > 6`  (may be absent)    -> molLimit : Option Int
+  packer:   image suppressed iff an atom of its PART is nearer than   dupLim   (`length < 0.2`)
+  collect:  entry iff  eps < dk <= dist + window                       (`dk > 0.001`, `sdm_item.dist + 0.2 >= dk`)
+            for two hydrogens iff eps < dk <= hh                       (`dddd = 1.8`)
+            only for molLow <= atom1.molindex [<= molLimit]            (`molindex < 1`; no upper limit in the tree today)
+
+They are not read off the text of sdm.py: `probe_c14.py` (a separate interpreter that imports the package from the tree
+under test) RUNS the two functions on symbolic numbers, records every comparison with the constant it compares against,
+and establishes what each threshold does by running the real code in every cell of the partition they induce — see the
+docstring there.  Any spelling of the same decisions gives the same table; a decision table of another shape is reported
+as lost, never fitted.
 """
-import ast
+import json
+import subprocess
+import sys
 from fractions import Fraction
 from pathlib import Path
 
 import extract
 
-REL = 'shelxfile/shelx/sdm.py'
+HERE = Path(__file__).resolve().parent
+REAL = ('dupLim', 'window', 'hh', 'eps')
+LAST_KNOWN = dict(dupLim=Fraction(1, 5), window=Fraction(1, 5), hh=Fraction(9, 5), eps=Fraction(1, 1000), molLow=1, molLimit=None)
 
 
-def _num(node):
-    if isinstance(node, ast.Constant) and isinstance(node.value, (int, float)) and not isinstance(node.value, bool):
-        return node.value
-    if isinstance(node, ast.UnaryOp) and isinstance(node.op, ast.USub):
-        v = _num(node.operand)
-        return None if v is None else -v
-    return None
-
-
-def _is_attr(node, name):
-    return isinstance(node, ast.Attribute) and node.attr == name
-
-
-def _render(c):
+def _render(c, notes=()):
     def rat(x):
-        return extract.lean_rat(x)
+        return f'({x.numerator} : Rat)' if x.denominator == 1 else f'(({x.numerator} : Rat) / {x.denominator})'
 
     def flt(x):
-        return f'({float(x)!r} : Float)'
+        return f'({x.numerator / x.denominator!r} : Float)'
     lim = 'none' if c['molLimit'] is None else f'some {int(c["molLimit"])}'
-    lines = [extract.HEADER, 'namespace Shelx.C14.Consts', '']
-    for k in ('dupLim', 'window', 'hh', 'eps'):
+    lines = [extract.HEADER]
+    lines += [f'-- {n}' for n in notes]
+    lines += ['namespace Shelx.C14.Consts', '']
+    for k in REAL:
         lines.append(f'def {k}R : Rat := {rat(c[k])}')
         lines.append(f'def {k}F : Float := {flt(c[k])}')
     lines.append(f'def molLow : Int := {int(c["molLow"])}')
@@ -48,65 +45,43 @@ def _render(c):
     return '\n'.join(lines)
 
 
-LAST_KNOWN = dict(dupLim=0.2, window=0.2, hh=1.8, eps=0.001, molLow=1, molLimit=6)
-
-
 def _fallback(out):
     extract.write_if_changed(Path(out) / 'C14Consts.lean', _render(LAST_KNOWN))
 
 
+def _lost(what):
+    return dict(props=['C14'], what=what)
+
+
 @extract.extractor
 def c14_consts(repo, out):
-    tree = extract.parse(repo, REL)
-    lost = []
-    c = {}
-    packer = extract.find(tree, 'SDM.packer')
-    collect = extract.find(tree, 'SDM.collect_needed_symmetry')
-    if packer is None or collect is None:
+    p = subprocess.run([sys.executable, str(HERE / 'probe_c14.py'), '--repo', str(repo)],
+                       stdout=subprocess.PIPE, stderr=subprocess.PIPE, text=True, timeout=300,
+                       env={'PATH': '/usr/bin:/bin', 'PYTHONDONTWRITEBYTECODE': '1', 'PYTHONHASHSEED': '0'})
+    try:
+        if p.returncode != 0:
+            raise ValueError(f'exit {p.returncode}: {p.stderr[-400:]}')
+        r = json.loads(p.stdout[p.stdout.index('{'):])
+    except ValueError as e:
         _fallback(out)
-        return [dict(props=['C14'], what='SDM.packer / SDM.collect_needed_symmetry not found in sdm.py')]
-    # packer: comparisons `<something> < const` (accept `const > something`)
-    dups = []
-    for n in ast.walk(packer):
-        if isinstance(n, ast.Compare) and len(n.ops) == 1:
-            l, r = n.left, n.comparators[0]
-            if isinstance(n.ops[0], (ast.Lt, ast.LtE)) and isinstance(_num(r), float):
-                dups.append((_num(r), type(n.ops[0]).__name__))
-            elif isinstance(n.ops[0], (ast.Gt, ast.GtE)) and isinstance(_num(l), float):
-                dups.append((_num(l), 'Lt' if isinstance(n.ops[0], ast.Gt) else 'LtE'))
-    if len(dups) == 1 and dups[0][1] == 'Lt':
-        c['dupLim'] = dups[0][0]
-    else:
-        lost.append(dict(props=['C14'], what=f'packer: duplicate test `length < const` not recognised ({dups})'))
-    # collect
-    for n in ast.walk(collect):
-        if isinstance(n, ast.BinOp) and isinstance(n.op, ast.Add):
-            if _is_attr(n.left, 'dist') and _num(n.right) is not None:
-                c['window'] = _num(n.right)
-            elif _is_attr(n.right, 'dist') and _num(n.left) is not None:
-                c['window'] = _num(n.left)
-        if isinstance(n, ast.Assign) and len(n.targets) == 1 and isinstance(n.targets[0], ast.Name) and n.targets[0].id == 'dddd' \
-                and _num(n.value) is not None:
-            c['hh'] = _num(n.value)
-        if isinstance(n, ast.Compare) and len(n.ops) == 1:
-            l, r, op = n.left, n.comparators[0], n.ops[0]
-            if _is_attr(l, 'molindex') and _num(r) is not None:
-                if isinstance(op, ast.Lt):
-                    c['molLow'] = _num(r)
-                elif isinstance(op, ast.Gt):
-                    c['molLimit'] = _num(r)
-                elif isinstance(op, ast.GtE):
-                    c['molLimit'] = _num(r) - 1
-                elif isinstance(op, ast.LtE):
-                    c['molLow'] = _num(r) + 1
-            if isinstance(l, ast.Name) and l.id == 'dk' and isinstance(op, ast.Gt) and _num(r) is not None:
-                c['eps'] = _num(r)
-    c.setdefault('molLimit', None)
-    missing = [k for k in ('dupLim', 'window', 'hh', 'eps', 'molLow') if k not in c]
-    if missing:
-        lost.append(dict(props=['C14'], what=f'collect_needed_symmetry/packer: constants not recognised: {missing}'))
-        c = dict(LAST_KNOWN, **c)
-    extract.write_if_changed(Path(out) / 'C14Consts.lean', _render(c))
+        return [_lost(f'probe_c14.py gave no result: {e}')]
+    lost = [_lost(w) for w in r.get('lost', [])]
+    got = r.get('consts', {})
+    notes = [n for n in r.get('notes', []) if not n.endswith('runs of the real code')]
+    c = {}
+    for k in REAL:
+        if got.get(k) is not None:
+            c[k] = Fraction(got[k])
+    for k in ('molLow', 'molLimit'):
+        if k in got:
+            c[k] = got[k]
+    # hh = null with no lost message: the probe established that no pair of hydrogens reaches an H...H window (note says why)
+    unobservable = 'hh' in got and got['hh'] is None
+    missing = [k for k in LAST_KNOWN if k not in c and not (k == 'hh' and unobservable)]
+    if missing and not lost:
+        lost.append(_lost(f'collect_needed_symmetry/packer: thresholds not established: {missing}'))
+    c = dict(LAST_KNOWN, **c)
+    extract.write_if_changed(Path(out) / 'C14Consts.lean', _render(c, notes))
     return lost
 
 
